@@ -7,6 +7,7 @@
     * `Object.setStr/setIdx/setSym`            — identical text;
     * `_setForeignStr/_setForeignIdx`          — identical text; `setForeignSym` = symValues lookup prelude ++ the same text;
     * `setOwnSym`, `defineOwnPropertySym`, `deleteSym` — symValues storage instead of values/propNames (Expected below);
+    * `getStr/getIdx/getSym` (+ `getWithOwnProp`), `hasPropertyStr/Idx/Sym`, `checkDelete` — the text `Model.lean` part 2b transcribes;
     * the Idx copies of setOwn/define/delete delegate to the Str copy with `idx.string()`; `setForeignIdx` has the
       `idxPropCount == 0` fast path.
   A failing theorem names the copy that drifted.  The obligation proper is `setStr_eq_setIdx_eq_setSym` on the three
@@ -235,6 +236,83 @@ def defineOwnProperty : List String := [
   "return nil, false"
 ]
 
+def getPropStr : List String := [
+  "prop := o.values[KEY]",
+  "if prop == nil",
+  "if o.prototype != nil",
+  "if receiver == nil",
+  "return o.prototype.self.get(KEY, o.val)",
+  "end",
+  "return o.prototype.self.get(KEY, receiver)",
+  "end",
+  "end",
+  "prop, ok := prop.(*valueProperty)",
+  "if ok",
+  "if receiver == nil",
+  "return prop.get(o.val)",
+  "end",
+  "return prop.get(receiver)",
+  "end",
+  "return prop"
+]
+
+def getPropIdx : List String := [
+  "return o.val.self.get(KEY.string(), receiver)"
+]
+
+def getPropSym : List String := [
+  "return o.getWithOwnProp(o.getOwnProp(KEY), KEY, receiver)"
+]
+
+def hasPropertyStr : List String := [
+  "if o.val.self.hasOwnProperty(KEY)",
+  "return true",
+  "end",
+  "if o.prototype != nil",
+  "return o.prototype.self.hasProperty(KEY)",
+  "end",
+  "return false"
+]
+
+def hasPropertyIdx : List String := [
+  "return o.val.self.hasProperty(KEY.string())"
+]
+
+def hasPropertySym : List String := [
+  "if o.hasOwnProperty(KEY)",
+  "return true",
+  "end",
+  "if o.prototype != nil",
+  "return o.prototype.self.hasProperty(KEY)",
+  "end",
+  "return false"
+]
+
+def getWithOwnPropStr : List String := [
+  "if KEY == nil && o.prototype != nil",
+  "if receiver == nil",
+  "return o.prototype.get(p, o.val)",
+  "end",
+  "return o.prototype.get(p, receiver)",
+  "end",
+  "KEY, ok := KEY.(*valueProperty)",
+  "if ok",
+  "if receiver == nil",
+  "return KEY.get(o.val)",
+  "end",
+  "return KEY.get(receiver)",
+  "end",
+  "return KEY"
+]
+
+def checkDeleteStr : List String := [
+  "val, ok := val.(*valueProperty)",
+  "if ok",
+  "return o.checkDeleteProp(KEY, val, throw)",
+  "end",
+  "return true"
+]
+
 def symLookupPrelude : List String := [
   "var prop Value",
   "if o.symValues != nil",
@@ -258,5 +336,13 @@ theorem defineOwn_Sym_expected : defineOwnSym = Expected.defineOwnSym := by rfl
 theorem deleteOwn_Str_expected : deleteOwnStr = Expected.deleteOwnStr := by rfl
 theorem deleteOwn_Idx_expected : deleteOwnIdx = Expected.deleteOwnIdx := by rfl
 theorem deleteOwn_Sym_expected : deleteOwnSym = Expected.deleteOwnSym := by rfl
+theorem getPropStr_expected : getPropStr = Expected.getPropStr := by rfl
+theorem getPropIdx_expected : getPropIdx = Expected.getPropIdx := by rfl
+theorem getPropSym_expected : getPropSym = Expected.getPropSym := by rfl
+theorem hasPropertyStr_expected : hasPropertyStr = Expected.hasPropertyStr := by rfl
+theorem hasPropertyIdx_expected : hasPropertyIdx = Expected.hasPropertyIdx := by rfl
+theorem hasPropertySym_expected : hasPropertySym = Expected.hasPropertySym := by rfl
+theorem getWithOwnPropStr_expected : getWithOwnPropStr = Expected.getWithOwnPropStr := by rfl
+theorem checkDeleteStr_expected : checkDeleteStr = Expected.checkDeleteStr := by rfl
 
 end GojaModel.C04.Tie
